@@ -61,9 +61,13 @@ def extra_measures(case, vars_, survey):
     return out
 
 
-def gen_case(rng):
-    shape = rng.choice(["strand", "2d", "2d", "2d", "2d", "3d"])
-    if shape == "strand":
+def gen_case(rng, shape=None, kinds=None, weighted=None, n_resps=(0, 1, 2, 5, 10, 20, 30, 40), n_valid=(1, 4),
+             p_ins=0.75, regimes=True, p_scale=0.12):
+    """the extension modules (c11_smooth, c11_wscale) call this with a fixed shape / kinds / weighting"""
+    shape = shape or rng.choice(["strand", "2d", "2d", "2d", "2d", "3d"])
+    if kinds is not None:
+        pass
+    elif shape == "strand":
         kinds = [rng.choice(["cat", "cat", "cat_date", "cat_date", "mr"])]
     elif shape == "2d":
         kinds = [rng.choice(KINDS2), rng.choice(KINDS2)]
@@ -71,23 +75,25 @@ def gen_case(rng):
         kinds = [rng.choice(["cat", "mr", "cat_date"]), rng.choice(KINDS2), rng.choice(KINDS2)]
     vars_ = []
     for i, kd in enumerate(kinds):
-        vars_.append(su.gen_dim_var(rng, kd, "v%d" % i, n_valid=rng.randint(1, 4) if shape != "3d" or i else rng.randint(1, 2),
+        vars_.append(su.gen_dim_var(rng, kd, "v%d" % i, n_valid=rng.randint(*n_valid) if shape != "3d" or i else rng.randint(1, 2),
                                     n_missing=rng.choice([0, 0, 1, 2]), missing_first=rng.random() < 0.4))
-    weighted = rng.random() < 0.6
-    n_resp = rng.choice([0, 1, 2, 5, 10, 20, 30, 40])
+    weighted = (rng.random() < 0.6) if weighted is None else weighted
+    n_resp = rng.choice(list(n_resps))
     survey = su.gen_survey(rng, vars_, n_resp, weighted)
     # the strand's p(1 - p) cancels in 1 - p when p is within 2^-34 of 1 (float noise ~1e-6 relative): the
     # mixed-scale regime is kept out of strands; the three-term slice formula is stable under it
     regime = su.pick_regime(rng, weighted, p_each=0.2 if shape == "strand" else 0.08,
                             allowed=("tiny", "small") if shape == "strand" else ("tiny", "mixed", "small"))
+    if not regimes:
+        regime = None
     survey = su.apply_regime(rng, vars_, survey, regime)
     p_overlap = 0.08
     row_ins = col_ins = []
     rv = vars_[-2] if len(vars_) >= 2 else vars_[0]
     cv = vars_[-1] if len(vars_) >= 2 else None
-    if rv.kind in ("cat", "cat_date") and rng.random() < 0.75:
+    if rv.kind in ("cat", "cat_date") and rng.random() < p_ins:
         row_ins = su.gen_insertions(rng, rv, rng.randint(1, 2), p_diff=0.6, p_overlap=p_overlap)
-    if cv is not None and cv.kind in ("cat", "cat_date") and rng.random() < 0.75:
+    if cv is not None and cv.kind in ("cat", "cat_date") and rng.random() < p_ins:
         col_ins = su.gen_insertions(rng, cv, rng.randint(1, 2), p_diff=0.6, p_overlap=p_overlap)
     # `pairwise_indices` settings of the analysis: they concern the pairwise tests only; the margin of
     # error is at 95% (1.959964 x std-err) whatever they say
@@ -97,7 +103,7 @@ def gen_case(rng):
         if rng.random() < 0.5:
             pairwise["only_larger"] = rng.random() < 0.5
     case = {"vars": [v.to_json() for v in vars_], "survey": gen.survey_to_json(survey), "weighted": weighted,
-            "row_ins": row_ins, "col_ins": col_ins, "scale": su.pick_scale(rng, 0.12), "pairwise": pairwise,
+            "row_ins": row_ins, "col_ins": col_ins, "scale": su.pick_scale(rng, p_scale), "pairwise": pairwise,
             "wregime": regime}
     # measures the back end sends ALONG with the counts when the analysis asks for something else as well (squared
     # weights for the pairwise column tests, a numeric sum / mean of the same table): the statistics of the proportions
@@ -251,6 +257,12 @@ def evaluate(case, louts, ctx):
         ctx.count("cases_with_pairwise_settings")
     if case.get("wregime"):
         ctx.count("weight_regime:%s%s" % (case["wregime"], ".strand" if len(vars_) == 1 else ""))
+    # a `smoother` dimension transform (c11_smooth) concerns the smoothed_* measures only: the statistics of the
+    # (plain) proportions are what they are without it
+    for dkey, sm in sorted((case.get("smoother") or {}).items()):
+        if sm is not None:
+            tr.setdefault(dkey, {})["smoother"] = sm
+            ctx.count("smoother:%s:function=%s" % (dkey, sm.get("function", "absent")))
     cube = Cube(resp, transforms=tr)
     key_parts = []
     nontrivial_ins = nontrivial_base = False
@@ -306,6 +318,8 @@ def evaluate(case, louts, ctx):
     if len(vars_) == 1:
         st = cube.partitions[0]
         rows, _ = _sides(case, vars_)
+        for a in case.get("pre_reads") or []:
+            common.call_impl(lambda: getattr(st, a))            # may legitimately raise / not exist on a strand
         ro = common.call_impl(lambda: st.row_order().tolist())
         if isinstance(ro, dict) or len(ro) != len(rows):
             findings.append({"kind": "model", "locus": "strand.shape", "detail": "row order %r vs %d sides" % (ro, len(rows))})
@@ -392,7 +406,8 @@ def describe(case):
     return {"kinds": [v.kind for v in vars_], "missing_flags": [v.cat_missing for v in vars_],
             "n_respondents": len(survey), "weighted": case["weighted"],
             "row_ins": case["row_ins"], "col_ins": case["col_ins"], "pairwise": case.get("pairwise"),
-            "extras": case.get("extras"), "pre_reads": case.get("pre_reads"), "scale": case.get("scale", 1), "first_respondents": case["survey"][:3]}
+            "extras": case.get("extras"), "pre_reads": case.get("pre_reads"), "smoother": case.get("smoother"),
+            "wfactor": case.get("wfactor"), "scale": case.get("scale", 1), "first_respondents": case["survey"][:3]}
 
 
 def shrink_candidates(case):
@@ -413,6 +428,10 @@ def shrink_candidates(case):
     ex = case.get("extras") or []
     for i in range(len(ex)):
         yield dict(case, extras=ex[:i] + ex[i + 1:])
+    sm = case.get("smoother") or {}
+    for dkey in sorted(sm):
+        if sm[dkey] is not None:
+            yield dict(case, smoother={k: v for k, v in sm.items() if k != dkey})
 
 
 THEOREMS = [
